@@ -366,4 +366,63 @@ def c16(run, ck):
                 assumptions=["zone offsets are trusted input from python3 zoneinfo for 1985-2026 (WET excluded)", "unit definitions: international avoirdupois / US customary / SI values"])
 
 
-PIPELINES = {"C16": c16, "C15": c15, "C14": c14, "C17": c17, "C19": c19, "C11": c11, "C01": c01, "C13": c13, "C02": c02, "C18": c18, "C12": c12, "C10": c10, "C09": c09, "C03": c03, "C04": c04, "C05": c05, "C06": c06, "C07": c07, "C08": c08}
+def c20(run, ck):
+    out = os.path.join(run.work, "sql.ndjson")
+    run.drive("sql", 8000 if run.thorough else 800, out)
+    verdicts, recs = run.validate(out, "Trace_Sql", cfg="Trace_Sql.cfg", parts=8, label="sql")
+    def describe(rec, v):
+        w = rec.get("want", {})
+        if _any_node(w, lambda n: n.get("k") == "un" and n.get("op") == "-" and n.get("n", 1) >= 2):
+            return "negrun"
+        if _any_node(w, lambda n: n.get("k") == "call" and n.get("f") in ("int", "uint", "float", "double", "string", "bool", "bytes", "timestamp", "duration")
+                     and len(n.get("args", [])) == 1 and _unparen(n["args"][0]).get("k") == "bin"):
+            return "cast-of-binary"
+        casts = ("int", "uint", "float", "double", "string", "bool", "bytes", "timestamp", "duration")
+        def cast_call(n):
+            n = _unparen(n)
+            return isinstance(n, dict) and n.get("k") == "call" and n.get("f") in casts and len(n.get("args", [])) <= 1
+        if _any_node(w, lambda n: (n.get("k") == "mcall" and cast_call(n.get("r"))) or (n.get("k") in ("sel", "idx") and cast_call(n.get("e")))):
+            return "cast-as-receiver"
+        feats = []
+        text = json.dumps(w)
+        for k in ("mcall", "call", "map", "list", "sel", "tern"):
+            if '"k": "%s"' % k in text:
+                feats.append(k)
+        has_quote = any(39 in (x if isinstance(x, list) else []) for x in _str_lits(w))
+        return "+".join(feats[:2]) + ("|quote" if has_quote else "")
+    simple_violations(run, ck, verdicts, recs, "sql", describe=describe)
+    return dict(rule="20 string literals over quotes, backslashes, dashes, semicolons, newlines and comment openers in 7 positions; calls alone / as receiver / chained with 0..3 arguments; generated trees over the translatable subset; untranslatable constructs; "
+                     "the SQL text is read back character by character by the specification's lexer and parser and compared with the source tree",
+                assumptions=["string literals follow the standard convention ('' doubles a quote, backslash is literal)", "nothing executes the SQL"])
+
+
+def _unparen(n):
+    while isinstance(n, dict) and n.get("k") == "paren":
+        n = n["e"]
+    return n
+
+
+def _any_node(t, pred):
+    if isinstance(t, dict):
+        if "k" in t and pred(t):
+            return True
+        return any(_any_node(v, pred) for v in t.values())
+    if isinstance(t, list):
+        return any(_any_node(v, pred) for v in t)
+    return False
+
+
+def _str_lits(t):
+    out = []
+    if isinstance(t, dict):
+        if t.get("k") == "lit" and t.get("v", {}).get("t") == "str":
+            out.append(t["v"]["s"])
+        for v in t.values():
+            out.extend(_str_lits(v))
+    elif isinstance(t, list):
+        for v in t:
+            out.extend(_str_lits(v))
+    return out
+
+
+PIPELINES = {"C20": c20, "C16": c16, "C15": c15, "C14": c14, "C17": c17, "C19": c19, "C11": c11, "C01": c01, "C13": c13, "C02": c02, "C18": c18, "C12": c12, "C10": c10, "C09": c09, "C03": c03, "C04": c04, "C05": c05, "C06": c06, "C07": c07, "C08": c08}
